@@ -441,10 +441,8 @@ func WellFormed(b []byte, dir int) (Pkt, error) {
 	if !LegalDirection(p.Type, dir) {
 		return p, fmt.Errorf("%s is not valid in this direction", p.Name())
 	}
-	if p.Long && len(b) <= 255 {
-		// legal per 5.2.1? The spec says the 3-octet form is for lengths > 255; a sender must not use it otherwise.
-		return p, fmt.Errorf("3-byte length form used for a %d-byte datagram", len(b))
-	}
+	// note: the 3-octet length form on a message shorter than 256 octets is legal (5.2.1: such messages
+	// "may" use the 1-octet form), so it is not judged here.
 	return p, nil
 }
 
